@@ -16,7 +16,7 @@ BUDGET_S = {'quick': 120, 'thorough': 1200}
 BOUNDS = {
     'quick': 'one build_file on a/b/c/t (target depth 3) and a/t (depth 1): target and every ancestor symbolic (absent / '
              'foreign file / foreign directory with or without content) or stale (output / created directory of a '
-             'previous build, optionally tampered); modes ok / ok returning the empty tuple / raise before write / raise after write / no create / non-JSON falsy return values (empty set, empty bytes, empty frozenset, range(0)) / '
+             'previous build, optionally tampered); modes ok / ok returning the empty tuple / ok returning a dict with NaN, -inf, +inf, None, True, int, float and str keys / raise before write / raise after write / no create / non-JSON falsy return values (empty set, empty bytes, empty frozenset, range(0)) / '
              'non-JSON return; mkdir made to fail (OSError ENAMETOOLONG, or the ValueError of a name with a NUL byte) at each level; 4 spellings of the path; previous output at an '
              'ancestor position of the new target (a, a/b, a/b/c) with a deeper mkdir failing, optionally followed by a failing root',
     'thorough': 'plus a sibling output in the same new directory (reservation counting) and two prefixes',
